@@ -690,14 +690,18 @@ Record WInv (w : world) : Prop := {
   wi_ep : Inv_ep (w_ep w)
 }.
 
-(* what the models take on trust for one operation *)
+(* the external facts of one operation: nothing else is assumed about a history.
+     WErc20   the address the EVM gives to the contract deployed by RegisterCoin is not the address of a
+              registered pair (a fact about the EVM's CREATE address derivation, [TokenPairsProofs.fresh_ok])
+     WBlock   the block height is not negative (a fact about CometBFT headers; ValidateGenesis of x/epochs
+              demands current_epoch_start_height >= 0)
+   Everything else is derived from the models: AMM well-formedness and the pool sequence (Coinswap), validity
+   of stored parameters (Authority), the registry invariants (TokenPairs, Csr), and - [deliver_ids] below - that
+   the NFT ids a receipt stores are ids of Register events the Turnstile emitted in that receipt. *)
 Definition op_ok (w : world) (o : wop) : Prop :=
   match o with
   | WErc20 x => TokenPairsProofs.fresh_ok (w_erc w) x        (* the EVM gives a fresh address to a new contract *)
-  | WBlock _ h _ => 0 <= h
-  | WCsrTx t =>                                                (* ids stored by a receipt are ids of its Register events *)
-      forall n, Csr.csrs (Csr.reg (Csr.deliver t (w_csr w))) n <> None ->
-                Csr.csrs (Csr.reg (w_csr w)) n <> None \/ In n (reg_ids (Csr.tx_logs t))
+  | WBlock _ h _ => 0 <= h                                    (* block heights are not negative *)
   | _ => True
   end.
 
@@ -803,6 +807,100 @@ Proof.
   destruct (CsrProofs.post_tx_keeps _ _ _ _ _ E A) as (r' & B & _). rewrite B. discriminate.
 Qed.
 
+
+(** ** NFT ids appear only through Register events of the Turnstile (derived from Model/Csr.v) *)
+Fixpoint ts_reg_ids (ts : Z) (logs : list Csr.log) : list Z :=
+  match logs with
+  | [] => []
+  | l :: r =>
+      if Csr.l_emitter l =? ts then
+        match Csr.l_payload l with Csr.PRegister _ _ id => Csr.u64 id :: ts_reg_ids ts r | _ => ts_reg_ids ts r end
+      else ts_reg_ids ts r
+  end.
+
+Lemma ts_reg_ids_incl ts logs n : In n (ts_reg_ids ts logs) -> In n (reg_ids logs).
+Proof.
+  induction logs as [|l r IH]; cbn [ts_reg_ids reg_ids]; [tauto|].
+  destruct (Csr.l_emitter l =? ts); destruct (Csr.l_payload l); cbn [In]; intuition.
+Qed.
+
+(* one event: a new id is the id of a Register event emitted by the Turnstile *)
+Lemma log_step_ids hc ts g l g' n :
+  Csr.log_step hc ts g l = Csr.Apply g' -> Csr.csrs g' n <> None ->
+  Csr.csrs g n <> None \/ In n (ts_reg_ids ts [l]).
+Proof.
+  unfold Csr.log_step. cbn [ts_reg_ids].
+  destruct (Csr.l_emitter l =? ts); cbn [negb]; [|discriminate].
+  destruct (Csr.l_payload l) as [c0 rv id|c0 id| | | |]; try discriminate.
+  - unfold Csr.register_event. destruct (Csr.validate_contract _ _ _); [|discriminate].
+    destruct (Csr.csrs g (Csr.u64 id)) eqn:Cn; [discriminate|]. destruct (Csr.validate _); [|discriminate].
+    intros X. inversion X; subst g'. rewrite CsrProofs.set_csr_csrs.
+    destruct (Z.eqb_spec n (Csr.u64 id)) as [->|Hne]; [intros _; right; left; reflexivity|intros H; left; exact H].
+  - unfold Csr.assign_event. destruct (Csr.validate_contract _ _ _); [|discriminate].
+    destruct (Csr.csrs g (Csr.u64 id)) as [r0|] eqn:Cn; [|discriminate]. destruct (Csr.validate _); [|discriminate].
+    intros X. inversion X; subst g'. rewrite CsrProofs.set_csr_csrs.
+    destruct (Z.eqb_spec n (Csr.u64 id)) as [->|Hne]; intros H; left; [rewrite Cn; discriminate|exact H].
+Qed.
+
+Lemma ts_reg_ids_cons ts l r n : In n (ts_reg_ids ts [l]) \/ In n (ts_reg_ids ts r) -> In n (ts_reg_ids ts (l :: r)).
+Proof.
+  cbn [ts_reg_ids]. destruct (Csr.l_emitter l =? ts); [|intros [[]|H]; exact H].
+  destruct (Csr.l_payload l); cbn [In]; intuition.
+Qed.
+
+Lemma process_events_ids hc ts logs : forall g n,
+  Csr.csrs (Csr.process_events hc ts logs g) n <> None ->
+  Csr.csrs g n <> None \/ In n (ts_reg_ids ts logs).
+Proof.
+  induction logs as [|l r IH]; intros g n H; cbn [Csr.process_events] in H; [left; exact H|].
+  destruct (Csr.log_step hc ts g l) as [| |g1] eqn:E.
+  - destruct (IH _ _ H) as [A|A]; [left; exact A|right; apply ts_reg_ids_cons; right; exact A].
+  - left. exact H.
+  - destruct (IH _ _ H) as [A|A]; [|right; apply ts_reg_ids_cons; right; exact A].
+    destruct (log_step_ids _ _ _ _ _ _ E A) as [B|B]; [left; exact B|right; apply ts_reg_ids_cons; left; exact B].
+Qed.
+
+(* the whole hook: the final SetCSR rewrites the record of an NFT that is already there *)
+Lemma post_tx_ids t s s' n :
+  Csr.post_tx t s = Some s' -> Csr.csrs (Csr.reg s') n <> None ->
+  Csr.csrs (Csr.reg s) n <> None \/
+  exists ts, Csr.turnstile (Csr.cfg s) = Some ts /\ In n (ts_reg_ids ts (Csr.tx_logs t)).
+Proof.
+  unfold Csr.post_tx. intros H Hn.
+  destruct (negb (Csr.enable (Csr.cfg s))); [inversion H; subst; left; exact Hn|].
+  destruct (Csr.turnstile (Csr.cfg s)) as [ts|]; [|discriminate].
+  assert (G : forall m, Csr.csrs (Csr.process_events (Csr.tx_code t) ts (Csr.tx_logs t) (Csr.reg s)) m <> None ->
+                        Csr.csrs (Csr.reg s) m <> None \/ exists ts0, Some ts = Some ts0 /\ In m (ts_reg_ids ts0 (Csr.tx_logs t))).
+  { intros m Hm. destruct (process_events_ids _ _ _ _ _ Hm) as [A|A]; [left; exact A|right; eauto]. }
+  set (g := Csr.process_events (Csr.tx_code t) ts (Csr.tx_logs t) (Csr.reg s)) in *.
+  destruct (Csr.tx_gas_used t =? 0); [inversion H; subst; cbn [Csr.reg] in Hn; apply G; exact Hn|].
+  destruct (Csr.fee_of t) as [fee|]; cbn [SdkInt.obind] in H; [|discriminate].
+  destruct (Csr.send_fee (Csr.mon s) fee) as [m1|]; cbn [SdkInt.obind] in H; [|discriminate].
+  destruct (match Csr.tx_to t with Some c => Csr.byc g c | None => None end) as [k|].
+  - destruct (Csr.csrs g k) as [rk|] eqn:Ck; [|discriminate].
+    destruct (Csr.csr_fee_of fee (Csr.share (Csr.cfg s))) as [cf|]; cbn [SdkInt.obind] in H; [|discriminate].
+    destruct (SdkInt.SdkInt.sub fee cf) as [rem|]; cbn [SdkInt.obind] in H; [|discriminate].
+    destruct (0 <=? rem); [|discriminate].
+    destruct (if 0 <? cf then Csr.distribute m1 k cf else Some m1) as [m2|]; cbn [SdkInt.obind] in H; [|discriminate].
+    destruct (Csr.burn m2 rem) as [m3|]; cbn [SdkInt.obind] in H; [|discriminate].
+    destruct (SdkInt.SdkInt.add (Csr.c_revenue rk) cf) as [rev|]; cbn [SdkInt.obind] in H; [|discriminate].
+    inversion H; subst s'. cbn [Csr.reg] in Hn. rewrite CsrProofs.set_csr_csrs in Hn.
+    destruct (Z.eqb_spec n k) as [->|Hne]; apply G; [rewrite Ck; discriminate|exact Hn].
+  - destruct (Csr.burn m1 fee) as [m2|]; cbn [SdkInt.obind] in H; [|discriminate].
+    inversion H; subst s'. cbn [Csr.reg] in Hn. apply G. exact Hn.
+Qed.
+
+(* every NFT id present after a receipt was present before, or is the id of a Register event that the
+   stored Turnstile emitted in this receipt (a rejected receipt changes nothing) *)
+Theorem deliver_ids t s n :
+  Csr.csrs (Csr.reg (Csr.deliver t s)) n <> None ->
+  Csr.csrs (Csr.reg s) n <> None \/
+  exists ts, Csr.turnstile (Csr.cfg s) = Some ts /\ In n (ts_reg_ids ts (Csr.tx_logs t)).
+Proof.
+  unfold Csr.deliver. destruct (Csr.post_tx t s) as [s'|] eqn:E; [|intros H; left; exact H].
+  apply post_tx_ids. exact E.
+Qed.
+
 Lemma run_hooks_static day o hs : forall s s',
   Inflation.run_hooks day o hs s = Some s' ->
   Inflation.st_epp s' = Inflation.st_epp s /\ Inflation.st_ident s' = Inflation.st_ident s.
@@ -870,7 +968,8 @@ Proof.
         -- apply deliver_keeps. apply HD. exact Hn.
         -- apply andb_prop in Hn as [Hn _]. destruct (Csr.csrs _ n); [discriminate|discriminate Hn].
       * intros Hn. destruct (zmem n (w_dom w)) eqn:Z1; [left; apply zmem_In; exact Z1|].
-        destruct (OK n Hn) as [Old|New]; [left; apply HD; exact Old|].
+        destruct (deliver_ids _ _ _ Hn) as [Old|(ts & _ & New)]; [left; apply HD; exact Old|].
+        apply ts_reg_ids_incl in New.
         right. split; [exact New|].
         destruct (Csr.csrs _ n); [reflexivity|contradiction].
   - destruct (Inflation.block day orc t h (w_ep w) (w_inf w)) as [[es' s']|] eqn:E;
@@ -894,10 +993,10 @@ Qed.
 
 (** ** the history theorem: after any history of operations from a state of the invariant, the
        export passes validation, imports, re-exports to the same documents and answers the same.
-       [_partial]: the clause of [op_ok] for CSR transactions (the ids a receipt stores are ids of its
-       Register events) is a fact about Model/Csr.v that is assumed here, not derived; the other clauses
-       are external facts (fresh contract addresses, block height >= 0). *)
-Theorem history_partial c os w :
+       [hist_ok] holds exactly the two external facts listed at [op_ok] (fresh contract addresses from the EVM,
+       block heights >= 0); everything else, including that NFT ids appear only through Register events of the
+       Turnstile ([deliver_ids]), is derived from the models. *)
+Theorem history c os w :
   ctx_ok c -> WInv w -> hist_ok gov day w os ->
   let s := abs (wrun gov day os w) in
   validate (export s) = true /\
@@ -944,7 +1043,6 @@ Qed.
 Example ex_hist_ok : hist_ok ex_gov 0 ex_world ex_ops.
 Proof.
   cbn [ex_ops hist_ok op_ok]. repeat split; try lia.
-  intros n H. left. exact H.
 Qed.
 
 Example ex_history_content :
